@@ -515,6 +515,23 @@ static void ADFI_convert_integers(
     }
 }
 /*------------------------------------------------------------------------------------*/
+/* Compare the TAG_SIZE characters at p with a boundary tag, ignoring case
+   like ADFI_stridx_c( p, tag ) != 0 does, but without reading past them:
+   p points into a buffer read from disk that is not NUL terminated. */
+
+static int ADFI_tag_differs(
+		const char *p,
+		const char *tag )
+{
+int	i ;
+
+for( i=0; i<TAG_SIZE; i++ ) {
+   if( toupper( (unsigned char)p[i] ) != toupper( (unsigned char)tag[i] ) )
+      return 1 ;
+   } /* end for */
+return 0 ;
+}
+/*------------------------------------------------------------------------------------*/
 /* file ADFI_Abort.c */
 /***********************************************************************
 ADFI Abort:
@@ -6799,14 +6816,13 @@ if ( ADFI_stack_control(file_index, FREE_CHUNKS_BLOCK, FREE_CHUNKS_OFFSET,
      return ;
 
 	/** Check disk tags **/
-  if( ADFI_stridx_c( &disk_free_chunk_data[0], free_chunk_table_start_tag ) !=
-      0 ) {
+  if( ADFI_tag_differs( &disk_free_chunk_data[0], free_chunk_table_start_tag ) ) {
      *error_return = ADF_DISK_TAG_ERROR ;
      return ;
    } /* end of */
 
-  if( ADFI_stridx_c( &disk_free_chunk_data[FREE_CHUNK_TABLE_SIZE - TAG_SIZE],
-	 	     free_chunk_table_end_tag ) != 0 ) {
+  if( ADFI_tag_differs( &disk_free_chunk_data[FREE_CHUNK_TABLE_SIZE - TAG_SIZE],
+	 	     free_chunk_table_end_tag ) ) {
      *error_return = ADF_DISK_TAG_ERROR ;
      return ;
    } /* end of */
@@ -6960,13 +6976,13 @@ if ( ADFI_stack_control(file_index, block_offset->block,
      return ;
 
 	/** Check disk tags **/
-  if( ADFI_stridx_c( &disk_node_data[0], node_start_tag ) != 0 ) {
+  if( ADFI_tag_differs( &disk_node_data[0], node_start_tag ) ) {
      *error_return = ADF_DISK_TAG_ERROR ;
      return ;
    } /* end of */
 
-  if( ADFI_stridx_c( &disk_node_data[ NODE_HEADER_SIZE - TAG_SIZE ],
-		node_end_tag ) != 0 ) {
+  if( ADFI_tag_differs( &disk_node_data[ NODE_HEADER_SIZE - TAG_SIZE ],
+		node_end_tag ) ) {
      *error_return = ADF_DISK_TAG_ERROR ;
      return ;
    } /* end if */
